@@ -15,7 +15,7 @@ Check(k, r) ==
   LET b == MapOf(r.before)  a == MapOf(r.after)
       removed == IF r.cmd = "unset" THEN {r.args[i] : i \in 1..Len(r.args)} ELSE {}
       expDom == (DOMAIN b \ removed) \ {r.outvar}
-      noScope == \A n \in DOMAIN a : ~IsPrefix(ScopePrefix, n)
+      noScope == \A n \in DOMAIN a \ DOMAIN b : ~IsPrefix(ScopePrefix, n)        \* no working variable of the command is left (the caller's own scope::... names stay)
       same == (DOMAIN a \ {r.outvar}) = expDom /\ \A n \in expDom : a[n] = b[n]
       handlesOK == r.handles_after = r.handles_before + (IF r.returns_handle /\ r.out_is_handle THEN 1 ELSE 0)
   IN IF r.err = "" /\ noScope /\ same /\ handlesOK THEN TRUE
